@@ -1,6 +1,7 @@
 package main
 
 import (
+	"golang.org/x/tools/go/ssa"
 	"flag"
 	"fmt"
 	"os"
@@ -80,6 +81,17 @@ func cmdFunc(args []string) {
 		}
 		if e.Spec.Funcs[key] == nil {
 			fmt.Println("no contract for", key)
+			continue
+		}
+		if os.Getenv("GOVC_DUMP") != "" {
+			fn := e.Funcs[key]
+			for _, b := range fn.Blocks {
+				for _, in := range b.Instrs {
+					if dr, ok := in.(*ssa.DebugRef); ok {
+						fmt.Printf("b%d: %s  [X=%s %T]\n", b.Index, dr.String(), dr.X.Name(), dr.X)
+					}
+				}
+			}
 			continue
 		}
 		fc := e.VerifyFunc(key, *small)
